@@ -1526,19 +1526,28 @@ BInt
 bintShiftRem(BInt b, int n)
 {
 	BInt r;
-	int  i, top;
+	int  i, rc, top;
 	/* Returns lowest `n' bits from b. */
-	
+
+	if (n <= 0) return bint0;
+
 	if (IsImmed(b)) {
-		IInt x = BIntToInt(b);
-		return IntToBInt(x & ((1 << n) - 1));
+		IInt  x = BIntToInt(b);
+		UIInt m = (n >= (int) bitsizeof(UIInt))
+			? ~(UIInt) 0 : (((UIInt) 1) << n) - 1;
+		return bintNew((long) ((UIInt) x & m));
 	}
 
-	r = bintAlloc(n);
-	
-	for (i=0; i<Placea(r) - 1; i++) Placev(r)[i] = Placev(b)[i];
-	top = n - BINT_LG_RADIX*(Placec(r) - 1);
-	Placev(r)[i] = Placev(b)[i] & ((1<< top) - 1);
+	r  = bintAlloc(n);
+	rc = Placec(r);
+
+	/* Copy the places that exist in b, mask the top one, normalize. */
+	for (i = 0; i < rc; i++)
+		Placev(r)[i] = (i < Placec(b)) ? Placev(b)[i] : 0;
+	top = n - BINT_LG_RADIX*(rc - 1);
+	if (top < BINT_LG_RADIX)
+		Placev(r)[rc-1] &= (((BIntS) 1) << top) - 1;
+	while (Placec(r) > 0 && Placev(r)[Placec(r)-1] == 0) Placec(r)--;
 
 	return xintImmedIfCan(r);
 }
